@@ -23,6 +23,10 @@ fn prefixes(fl: Flavour, cap: Option<usize>, ta: bool, ra: bool) -> Vec<(String,
     use chan::api::Op;
     let mut v: Vec<(String, Vec<Act>)> = vec![];
     if fl.is_oneshot() {
+        // the value already taken while a second sender handle is still alive (a receiver that awaits again
+        // must be told Disconnected when that handle goes away), and a receive future pending before any send
+        v.push(("taken-with-clone".into(), vec![Act::Tx(0, Op::Clone), Act::Tx(0, Op::TrySend), Act::Rx(0, Op::TryRecv)]));
+        v.push(("rx-pending-2tx".into(), vec![Act::Tx(0, Op::Clone), Act::Rx(0, Op::RecvFut), Act::PollTask(false, 0)]));
         return v;
     }
     let fill: Vec<Act> = match cap {
